@@ -8,7 +8,7 @@ import z3
 from . import src as S
 from .core import *  # noqa: F401,F403
 from .vals import *  # noqa: F401,F403
-from .vals import SEQ, MapSeqP, SetP, VMapSlot
+from .vals import SEQ, MapSeqP, SetP, VMapSlot, VGapTuple
 from .schema import SCHEMA, CLASS_MODULE
 
 MAXCP = 0x10FFFF
@@ -170,7 +170,7 @@ class ExprMixin:
         if isinstance(p, PyListP):
             return z3.IntVal(len(p.items))
         if isinstance(p, GhostSeqP):
-            return p.base_len + len(p.items)
+            return p.total()
         return p.len
 
     def as_int(self, v, what="int"):
@@ -638,6 +638,15 @@ class ExprMixin:
                     return p.items[jj.as_long()]
                 raise Unsupported("index into pre-existing tokens")
             raise Unsupported(f"index into {type(p).__name__}")
+        if isinstance(base, VGapTuple):
+            i = z3.simplify(self.as_int(idx))
+            if z3.is_int_value(i):
+                k = i.as_long()
+                if 0 <= k < len(base.head):
+                    return base.head[k]
+                if k < 0 and -k <= len(base.tail):
+                    return base.tail[k]
+            raise ContractError("index into the unknown middle of the appended tokens")
         if isinstance(base, VTuple):
             i = z3.simplify(self.as_int(idx))
             if z3.is_int_value(i):
